@@ -23,6 +23,7 @@ see `AsyncInotifyWrapper.dir_loop`.
 
 import asyncio
 import contextlib
+import contextlib
 import logging
 import sys
 from collections.abc import Generator
@@ -372,7 +373,11 @@ class AsyncInotifyWrapper:
             # Mark watches that inotify reports as removed
             path = Path(event.path)
             if event.mask & Mask.IGNORED:
-                self.watches[path] = None
+                # Only forget the watch this event is about:
+                # when a directory was moved away and back, the watch that was removed
+                # reports IGNORED after a new watch for the same path was installed.
+                if self.watches.get(path) is event.watch:
+                    self.watches[path] = None
                 continue
             # Determine the type of change
             change = (
@@ -389,7 +394,10 @@ class AsyncInotifyWrapper:
                     # so we can check for it when the directory reappears.
                     watch = self.watches.get(path)
                     if watch is not None:
-                        self.inotify.rm_watch(watch)
+                        # The kernel drops the watch of a deleted directory by itself,
+                        # in which case removing it again fails with EINVAL.
+                        with contextlib.suppress(OSError):
+                            self.inotify.rm_watch(watch)
                         self.watches[path] = None
                         self.change_queue.put_nowait((Change.DELETED_PARENT, path))
                 else:
